@@ -549,4 +549,209 @@ theorem stdMaxDist_eq (R : ℝ) (lats lons : List ℝ) :
     stdMaxDist R lats lons = stdDiam true R [lats, lons] / ((3:ℕ):ℝ) := by
   simp [stdMaxDist, stdDiam, sphereAxes, boxDiam, axisExt]
 
+/-! ### materialised rotation loops agree with the closure forms on the `d × d` block -/
+
+theorem ofArr_tabArr {d : ℕ} (f : Mat ℝ) {i j : ℕ} (hi : i < d) (hj : j < d) :
+    ofArr d (tabArr d f) i j = f i j := by
+  have hsz : (tabArr d f).size = d * d := by simp [tabArr]
+  have hlt : j + i * d < d * d := by
+    calc j + i * d < d + i * d := by omega
+      _ = (i + 1) * d := by ring
+      _ ≤ d * d := Nat.mul_le_mul_right d (by omega)
+  have hd : 0 < d := by omega
+  unfold ofArr
+  rw [dif_pos ⟨hj, by rw [hsz]; exact hlt⟩]
+  simp only [tabArr, Array.getElem_ofFn]
+  rw [Nat.add_mul_div_right _ _ hd, Nat.add_mul_mod_self_right, Nat.div_eq_of_lt hj, Nat.mod_eq_of_lt hj,
+    Nat.zero_add]
+
+theorem agree_tab (d : ℕ) (f : Mat ℝ) : Agree d (ofArr d (tabArr d f)) f :=
+  fun _ _ hi hj => ofArr_tabArr f hi hj
+
+theorem agree_matmul {d : ℕ} {A A' B B' : Mat ℝ} (hA : Agree d A A') (hB : Agree d B B') :
+    Agree d (matmul d A B) (matmul d A' B') := by
+  intro i j hi hj
+  rw [matmul_real, matmul_real]
+  exact Finset.sum_congr rfl fun k hk => by
+    rw [hA i k hi (Finset.mem_range.mp hk), hB k j (Finset.mem_range.mp hk) hj]
+
+theorem agree_refl (d : ℕ) (M : Mat ℝ) : Agree d M M := fun _ _ _ _ => rfl
+
+theorem agree_trans {d : ℕ} {A B C : Mat ℝ} (h1 : Agree d A B) (h2 : Agree d B C) : Agree d A C :=
+  fun i j hi hj => (h1 i j hi hj).trans (h2 i j hi hj)
+
+theorem agree_derotateA_fold (d : ℕ) (L : List ((ℝ × (ℕ × ℕ)) × ℕ)) (r : Array ℝ) (M : Mat ℝ)
+    (h : Agree d (ofArr d r) M) :
+    Agree d (ofArr d (L.foldl (fun (res : Array ℝ) (q : (ℝ × (ℕ × ℕ)) × ℕ) =>
+        tabArr d (matmul d (ofArr d res) (givens q.1.2 (altSign q.2 * (-q.1.1))))) r))
+      (L.foldl (rotStep d) M) := by
+  induction L generalizing r M with
+  | nil => exact h
+  | cons q L ih =>
+    simp only [List.foldl_cons]
+    exact ih _ _ (agree_trans (agree_tab d _) (agree_matmul h (agree_refl d _)))
+
+/-- the loop of `matrix_derotate` with a materialised running result is `derotate` -/
+theorem agree_derotateA (d : ℕ) (angles : List ℝ) : Agree d (ofArr d (derotateA d angles)) (derotate d angles) := by
+  rw [derotate_eq]
+  exact agree_derotateA_fold d _ _ _ (agree_tab d eye)
+
+theorem agree_rotateA_fold (d : ℕ) (L : List ((ℝ × (ℕ × ℕ)) × ℕ)) (r : Array ℝ) (M : Mat ℝ)
+    (h : Agree d (ofArr d r) M) :
+    Agree d (ofArr d (L.foldl (fun (res : Array ℝ) (q : (ℝ × (ℕ × ℕ)) × ℕ) =>
+        tabArr d (matmul d (givens q.1.2 (altSign q.2 * q.1.1)) (ofArr d res))) r))
+      (L.foldl (fun (res : Mat ℝ) (q : (ℝ × (ℕ × ℕ)) × ℕ) => matmul d (givens q.1.2 (altSign q.2 * q.1.1)) res) M) := by
+  induction L generalizing r M with
+  | nil => exact h
+  | cons q L ih =>
+    simp only [List.foldl_cons]
+    exact ih _ _ (agree_trans (agree_tab d _) (agree_matmul (agree_refl d _) h))
+
+theorem agree_rotateA (d : ℕ) (angles : List ℝ) : Agree d (ofArr d (rotateA d angles)) (rotate d angles) :=
+  agree_rotateA_fold d _ _ _ (agree_tab d eye)
+
+/-- what the driver computes for `matrix_isometrize` is `matIsometrize` -/
+theorem agree_matIsometrizeA (d : ℕ) (angles anis : List ℝ) :
+    Agree d (ofArr d (matIsometrizeA d angles anis)) (matIsometrize d angles anis) :=
+  agree_trans (agree_tab d _) (agree_matmul (agree_refl d _) (agree_derotateA d angles))
+
+theorem agree_matAnisometrizeA (d : ℕ) (angles anis : List ℝ) :
+    Agree d (ofArr d (matAnisometrizeA d angles anis)) (matAnisometrize d angles anis) :=
+  agree_trans (agree_tab d _) (agree_matmul (agree_rotateA d angles) (agree_refl d _))
+
+theorem applyMat_agree {d : ℕ} {M M' : Mat ℝ} (h : Agree d M M') (x : ℕ → ℝ) {i : ℕ} (hi : i < d) :
+    applyMat d M x i = applyMat d M' x i := by
+  rw [applyMat_real, applyMat_real]
+  exact Finset.sum_congr rfl fun k hk => by rw [h i k hi (Finset.mem_range.mp hk)]
+
+/-! ### the setters -/
+
+theorem length_setAngles (d : ℕ) (as : List ℝ) : (setAngles d as).length = noa d := by
+  simp only [setAngles, List.length_append, List.length_take, List.length_replicate]; omega
+
+theorem length_setAnis (d : ℕ) (an : List ℝ) : (setAnis d an).length = d - 1 := by
+  simp only [setAnis, List.length_append, List.length_take, List.length_replicate]; omega
+
+theorem setAnis_id {d : ℕ} {an : List ℝ} (h : an.length = d - 1) : setAnis d an = an := by
+  simp [setAnis, List.take_of_length_le (le_of_eq h), h]
+
+theorem setAnis_pos {d : ℕ} {an : List ℝ} (h : ∀ a ∈ an, 0 < a) : ∀ a ∈ setAnis d an, 0 < a := by
+  intro a ha
+  simp only [setAnis, List.mem_append, List.mem_replicate] at ha
+  rcases ha with ⟨_, rfl⟩ | ha
+  · norm_num
+  · exact h a (List.mem_of_mem_take ha)
+
+theorem length_modelAnis (latlon : Bool) (an : List ℝ) : (modelAnis latlon an).length = an.length := by
+  cases latlon <;> simp [modelAnis]
+
+theorem modelAnis_pos (latlon : Bool) {an : List ℝ} (h : ∀ a ∈ an, 0 < a) : ∀ a ∈ modelAnis latlon an, 0 < a := by
+  cases latlon with
+  | false => simpa [modelAnis] using h
+  | true =>
+    intro a ha
+    simp only [modelAnis, if_true, List.mem_map] at ha
+    obtain ⟨⟨b, k⟩, hb, rfl⟩ := ha
+    by_cases hk : k < 2
+    · simp [hk]
+    · simp only [hk, if_false]
+      exact h b (List.fst_mem_of_mem_zipIdx hb)
+
+/-- lat-lon: the two spatial ratios are 1 -/
+theorem modelAnis_latlon_take (an : List ℝ) (h : 2 ≤ an.length) : (modelAnis true an).take 2 = [1, 1] := by
+  match an, h with
+  | a :: b :: t, _ => simp [modelAnis, List.zipIdx_cons]
+
+/-- the time ratio (any ratio after the first two) is kept -/
+theorem modelAnis_latlon_getD (an : List ℝ) {k : ℕ} (hk : 2 ≤ k) (dflt : ℝ) :
+    (modelAnis true an).getD k dflt = an.getD k dflt := by
+  simp only [modelAnis, if_true, List.getD_eq_getElem?_getD, List.getElem?_map, List.getElem?_zipIdx]
+  cases h : an[k]? with
+  | none => rfl
+  | some v =>
+    simp only [Option.map_some, Option.getD_some, Nat.zero_add]
+    rw [if_neg (by omega)]
+
+/-- whatever `set_len_anis` accepts: `dim - 1` positive ratios; lat-lon: the first two are 1 -/
+theorem setLenAnis_ok {latlon : Bool} {d : ℕ} {ls anis : List ℝ} {l0 : ℝ} {an : List ℝ}
+    (h : setLenAnis latlon d ls anis = .ok (l0, an)) :
+    an.length = d - 1 ∧ (∀ a ∈ an, 0 < a) ∧ (latlon = true → 3 ≤ d → an.take 2 = [1, 1]) := by
+  unfold setLenAnis at h
+  cases ht : List.take d ls with
+  | nil => rw [ht] at h; exact absurd h (by simp)
+  | cons l0' rest =>
+    rw [ht] at h
+    simp only at h
+    have key : ∀ O : List ℝ, O.length = d - 1 →
+        (if (O.all fun a => decide (((0:Nat):ℝ) < a)) = true then Except.ok (l0', modelAnis latlon O)
+          else (Except.error "ValueError" : Except String (ℝ × List ℝ))) = .ok (l0, an) →
+        an.length = d - 1 ∧ (∀ a ∈ an, 0 < a) ∧ (latlon = true → 3 ≤ d → an.take 2 = [1, 1]) := by
+      intro O hlen hO
+      by_cases hall : (O.all fun a => decide (((0:Nat):ℝ) < a)) = true
+      · rw [if_pos hall] at hO
+        simp only [Except.ok.injEq, Prod.mk.injEq] at hO
+        obtain ⟨_, rfl⟩ := hO
+        have hpos : ∀ a ∈ O, 0 < a := fun a ha => by simpa using List.all_eq_true.1 hall a ha
+        refine ⟨by rw [length_modelAnis, hlen], modelAnis_pos latlon hpos, ?_⟩
+        intro hl hd
+        subst hl
+        exact modelAnis_latlon_take _ (by rw [hlen]; omega)
+      · rw [if_neg hall] at hO; exact absurd hO (by simp)
+    by_cases hr : rest.length = 0
+    · simp only [hr, if_true] at h
+      exact key _ (length_setAnis d anis) h
+    · simp only [hr, if_false] at h
+      exact key _ (by simp) h
+
+theorem setLenAnis_single {d : ℕ} (hd : 1 ≤ d) (l : ℝ) {anis : List ℝ} (hlen : anis.length = d - 1) (h : ∀ a ∈ anis, 0 < a) :
+    setLenAnis false d [l] anis = .ok (l, anis) := by
+  have ht : List.take d [l] = [l] := by
+    obtain ⟨e, rfl⟩ : ∃ e, d = e + 1 := ⟨d - 1, by omega⟩
+    simp
+  simp only [setLenAnis, ht, List.length_nil, if_true, setAnis_id hlen, modelAnis, Bool.false_eq_true, if_false]
+  rw [if_pos]
+  simp only [List.all_eq_true, decide_eq_true_eq, Nat.cast_zero]
+  exact h
+
+/-! ### `set_model_angles` -/
+
+theorem length_modelAngles (latlon temporal : Bool) (d : ℕ) (as : List ℝ) (h : as.length = noa d) :
+    (modelAngles latlon temporal d as).length = noa d := by
+  cases latlon <;> cases temporal <;> simp [modelAngles, h]
+
+theorem length_setModelAngles (latlon temporal : Bool) (d : ℕ) (v : List ℝ) :
+    (setModelAngles latlon temporal d v).length = noa d :=
+  length_modelAngles _ _ _ _ (length_setAngles d v)
+
+theorem setModelAngles_latlon (temporal : Bool) (d : ℕ) (v : List ℝ) :
+    ∀ a ∈ setModelAngles true temporal d v, a = 0 := by
+  intro a ha
+  simp only [setModelAngles, modelAngles, if_true, List.mem_replicate] at ha
+  simpa using ha.2
+
+/-- temporal: every angle whose plane contains the time axis is zero -/
+theorem setModelAngles_temporal_zero (d : ℕ) (v : List ℝ) {k : ℕ} (hk : noa (d - 1) ≤ k) :
+    (setModelAngles false true d v).getD k 0 = 0 := by
+  simp only [setModelAngles, modelAngles, Bool.false_eq_true, if_false, if_true, List.getD_eq_getElem?_getD,
+    List.getElem?_map, List.getElem?_zipIdx]
+  cases h : (setAngles d v)[k]? with
+  | none => simp
+  | some a => simp; omega
+
+/-- normalising twice changes nothing -/
+theorem modelAngles_idem (latlon temporal : Bool) (d : ℕ) (as : List ℝ) :
+    modelAngles latlon temporal d (modelAngles latlon temporal d as) = modelAngles latlon temporal d as := by
+  cases latlon with
+  | true => simp [modelAngles]
+  | false =>
+    cases temporal with
+    | false => simp [modelAngles]
+    | true =>
+      simp only [modelAngles, Bool.false_eq_true, if_false, if_true]
+      apply List.ext_getElem
+      · simp
+      · intro n h1 h2
+        simp only [List.getElem_map, List.getElem_zipIdx, Nat.zero_add]
+        split <;> rfl
+
 end GSV.Model.LatLon
